@@ -177,6 +177,17 @@ theorem legacy_counterexample :
     (insertWithSource 3600000 (insertWithSource 3600000 (OrSwot.empty 1) 0 1 t1).1 0 2 t2).2 = true := by
   decide
 
+/-- Defect D17 (pinned cut-off): for a node whose oldest observed stamp is younger than the
+forgiveness period the subtraction clamped at the datacake epoch but kept the counter, so a stamp
+of the first tick with a lower counter — well inside the window — lay below the cut-off and its
+event was refused.  The current `forgive` puts the cut-off at the node's very first stamp. -/
+theorem legacy_epoch_cutoff :
+    let t := pack 1000 5 0
+    let m := pack 0 3 0
+    ValidStamp m ∧ ValidStamp t ∧ node m = node t ∧ dts t < dts m + 3600000 ∧
+    m < forgiveLegacy 3600000 t ∧ ¬ m < forgive 3600000 t := by
+  refine ⟨⟨by decide, by decide⟩, ⟨by decide, by decide⟩, by decide, by decide, by decide, by decide⟩
+
 /-- Non-vacuity: a concrete out-of-order, two-source history of two origins satisfies `Window`. -/
 example : Window 3600000
     [⟨0, ⟨1, pack 5000000 0 0, false⟩⟩, ⟨1, ⟨1, pack 4000000 3 0, true⟩⟩,
@@ -184,7 +195,7 @@ example : Window 3600000
   refine ⟨?_, ?_⟩
   · intro a ha
     simp only [List.mem_cons, List.mem_nil_iff, or_false] at ha
-    rcases ha with rfl | rfl | rfl | rfl <;> (refine ⟨by decide, by decide, by decide⟩)
+    rcases ha with rfl | rfl | rfl | rfl <;> (refine ⟨by decide, by decide⟩)
   · intro a ha b hb
     simp only [List.mem_cons, List.mem_nil_iff, or_false] at ha hb
     rcases ha with rfl | rfl | rfl | rfl <;> rcases hb with rfl | rfl | rfl | rfl <;> decide
